@@ -129,6 +129,18 @@ package xmpp
 //@ func handleInputStream
 //@   ghost handlerCalls int = 0
 //@   ghost autoReply bool = false
+//@   ghost firstErr error
+//@   callsite (encoding/xml.TokenReader).Token#1
+//@     after: firstErr = ret1
+// C08: keep-alives are ignored without invoking the handler, anything that is
+// neither an element nor character data ends the session with an error, and
+// the own address a stanza's from attribute is compared with is the bare one
+//@   ensures[C08] firstErr != nil ==> err != nil && handlerCalls == 0
+//@   ensures[C08] firstErr == nil && typeof(tok) == xml.CharData ==> err == nil && handlerCalls == 0
+//@   ensures[C08] firstErr == nil && typeof(tok) != xml.CharData && typeof(tok) != xml.StartElement ==> err != nil && handlerCalls == 0
+//@   ensures[C08] handlerCalls <= 1
+//@   callsite (mellium.im/xmpp/jid.JID).String#1
+//@     assert[C08] arg0.locallen + arg0.domainlen == len(arg0.data)
 //@   callsite (xmpp.Handler).HandleXMPP#1
 //@     assert[C07] rw.id == id && !rw.wroteResp && rw.level == 0
 //@     assert[C07] iqOk == iqName(start.Name)
